@@ -63,10 +63,12 @@ func NewStreamEnv(now time.Time) *StreamEnv {
 	return &StreamEnv{Env: e, K: k, Key: key, Escrow: escrow, FeeColl: feeColl}
 }
 
-// AnyValidatorFee: a validator-fee Dec in [0,1] with 2-decimal granularity is what Validate()
-// accepts? (checked in C16); here any raw value in [0, 10^18].
+// AnyValidatorFee: any validator-fee rate the chain accepts as a parameter — a raw 18-decimal
+// value in [-1, 2] constrained by the real Params.Validate (which is shown to mean [0,1] in C16).
 func AnyValidatorFee(name string) sdk.Dec {
-	return rt.DecRawMax(name, "1000000000000000000")
+	fee := rt.DecRaw(name, -1000000000000000000, 61)
+	rt.Assume(streamtypes.Params{ValidatorFee: fee}.Validate() == nil)
+	return fee
 }
 
 // AnyBlockTime: a block time between 1970-01-01T00:00:01Z and the end of year 9998 (stated bound:
@@ -77,3 +79,5 @@ func AnyBlockTime(name string) time.Time {
 	rt.Assume(rt.And(t.Unix() >= 1, t.Unix() <= 253370764800))
 	return t
 }
+
+func NewStreamMsgServer(se *StreamEnv) streamtypes.MsgServer { return streamkeeper.NewMsgServerImpl(se.K) }
